@@ -83,12 +83,85 @@ def _layouts(draw, case):
         case["layout"] = draw(_lay2())
         if case["mask"] is not None:
             case["mask_layout"] = draw(st.sampled_from(["c", "c"] + LAYOUTS_2D[1:] + ["expand"]))
+            case["mask_enc"] = draw(_mask_enc())
     return case
+
+
+# ---- mask encodings -----------------------------------------------------------------------------
+# Both unwrappers convert the mask with `.to(torch.bool)`, i.e. every dtype is accepted and a pixel is
+# valid iff its mask value is non-zero.  A mask is therefore also handed over as uint8 / int8..int64 /
+# float16..float64 tensor whose valid pixels carry a drawn non-zero value (boundary values of the
+# dtype, powers of two, fractions, tiny floats, or per-pixel "gray" values) and invalid pixels 0.
+MASK_DTYPES = ["bool", "uint8", "int8", "int16", "int32", "int64", "float16", "float32", "float64"]
+_BITS = {"uint8": 8, "int8": 8, "int16": 16, "int32": 32, "int64": 64}
+
+
+@st.composite
+def _mask_enc(draw):
+    dt = draw(st.sampled_from(["bool", "bool", "uint8", "uint8"] + MASK_DTYPES[1:]))
+    if dt == "bool":
+        return {"dtype": dt, "kind": "bool"}
+    if dt in _BITS:
+        bits = _BITS[dt]
+        signed = dt != "uint8"
+        lo, hi = (-(2 ** (bits - 1)), 2 ** (bits - 1) - 1) if signed else (0, 2**bits - 1)
+        kind = draw(st.sampled_from(["one", "max", "min" if signed else "max", "pow2", "pow2", "value", "value", "gray"]))
+        enc = {"dtype": dt, "kind": kind}
+        if kind == "one":
+            enc["on"] = 1
+        elif kind == "max":
+            enc["on"] = hi
+        elif kind == "min":
+            enc["on"] = lo
+        elif kind == "pow2":
+            enc["on"] = 2 ** draw(st.integers(0, bits - (2 if signed else 1)))
+        elif kind == "value":
+            v = draw(st.integers(lo, hi))
+            enc["on"] = v if v != 0 else 1
+        else:
+            enc["seed"] = draw(st.integers(0, 2**31 - 1))
+        return enc
+    kind = draw(st.sampled_from(["one", "big", "neg", "frac", "tiny", "gray"]))
+    enc = {"dtype": dt, "kind": kind}
+    if kind == "one":
+        enc["on"] = 1.0
+    elif kind == "big":
+        enc["on"] = 255.0
+    elif kind == "neg":
+        enc["on"] = -1.0
+    elif kind == "frac":
+        enc["on"] = draw(st.sampled_from([0.5, 0.25, 0.1, 0.999]))
+    elif kind == "tiny":
+        enc["on"] = 1e-7 if dt == "float16" else 1e-30  # non-zero in the dtype, its square is not
+    else:
+        enc["seed"] = draw(st.integers(0, 2**31 - 1))
+    return enc
+
+
+def _encode_mask(mask, enc):
+    """bool (H, W) -> numpy array of enc['dtype'] with non-zero exactly on the valid pixels."""
+    if enc is None or enc["dtype"] == "bool":
+        return mask.copy()
+    dt = np.dtype(enc["dtype"])
+    if enc["kind"] == "gray":
+        rng = np.random.default_rng(enc["seed"])
+        if dt.kind in "iu":
+            info = np.iinfo(dt)
+            v = rng.integers(info.min, info.max, size=mask.shape, endpoint=True, dtype=np.int64 if dt != np.uint64 else np.uint64)
+            v = np.where(v == 0, 1, v)
+        else:
+            v = rng.uniform(0.05, 1.0, size=mask.shape)
+        out = np.where(mask, v, 0).astype(dt)
+    else:
+        out = np.where(mask, enc["on"], 0).astype(dt)
+    if not np.array_equal(out != 0, mask):
+        raise AssertionError("harness: mask encoding changed the valid set")
+    return out
 
 
 def _garbage(torch, shape, dtype):
     """Filler for the elements of the backing storage that are NOT part of the view."""
-    if dtype == torch.bool:
+    if dtype == torch.bool or not (dtype.is_floating_point or dtype.is_complex):
         return torch.ones(shape, dtype=dtype)
     return torch.full(shape, float("nan"), dtype=dtype)
 
@@ -333,6 +406,79 @@ def seam_cases(draw):
 
 
 @st.composite
+def seamwrap_cases(draw):
+    """Corner-centred (FFT layout) regions on periodic grids - the geometry DirectPtychography hands to
+    unwrap_bf_overlap_phase_torch: a disc / square around index (0, 0) or the overlap lune of two such
+    discs, which is one region only through the periodic seam - with fields laid out corner-centred
+    (smooth across the seam) whose piston is chosen so that a wrap contour passes between two chosen
+    neighbouring pixels, mostly the seam pair at DC.  With an axis-aligned gentle tilt the ONLY wraps
+    of the field then lie across the seam and none in the array interior (class
+    wraps_only_across_seam); with other draws the contour also crosses the interior."""
+    H, W = draw(st.integers(6, 24)), draw(st.integers(6, 24))
+    rmax = max(1, min(H, W) // 2 - 1)
+    rad = draw(st.integers(1, rmax))
+    mask = {"t": "corner", "shape": draw(st.sampled_from(["disc", "disc", "rect"])), "rad": rad, "invert": False, "keep": "all"}
+    if draw(st.booleans()):
+        mask["shift"] = [draw(st.integers(-rad, rad)), draw(st.integers(-rad, rad))]
+    axis = draw(st.sampled_from(["x", "y"]))
+    base = 0.0 if axis == "x" else 1.5708
+    if draw(st.booleans()):
+        base += 3.1416
+    if draw(st.integers(0, 4)) == 0:
+        base = draw(_f(0, 6.2832))  # oblique tilt: the contour leaves the seam
+    terms = [{"t": "ramp", "w": 1.0, "angle": round(base, 4), "corner": True}]
+    if draw(st.integers(0, 2)) == 0:
+        k = draw(st.sampled_from(["quad", "gauss", "band", "white"]))
+        t = {"t": k, "w": draw(st.sampled_from([-1.0, 1.0])) * draw(_f(0.02, 0.3)), "corner": True}
+        if k == "quad":
+            t.update(cxx=draw(_f(-1, 1)), cyy=draw(_f(-1, 1)), cxy=draw(_f(-1, 1)), x0=0.5, y0=0.5)
+            if max(abs(t["cxx"]), abs(t["cyy"]), abs(t["cxy"])) < 0.05:
+                t["cxx"] = 1.0
+        elif k == "gauss":
+            t.update(x0=draw(_f(0.3, 0.7)), y0=draw(_f(0.3, 0.7)), s=draw(_f(0.05, 0.8)), periodic=False)
+        elif k == "band":
+            t.update(seed=draw(st.integers(0, 2**31 - 1)), kmax=draw(st.integers(1, 3)), decay=2.0)
+        else:
+            t.update(seed=draw(st.integers(0, 2**31 - 1)))
+        terms.append(t)
+    # wrap contour through a chosen neighbouring pair: mostly the seam pair at DC on the tilt axis
+    where = draw(st.sampled_from(["seam_dc", "seam_dc", "seam_dc", "seam_any", "interior"]))
+    if where == "interior":
+        r, c = draw(st.integers(0, H - 2)), draw(st.integers(0, W - 2))
+        pa, pb = [r, c], ([r, c + 1] if axis == "x" else [r + 1, c])
+    else:
+        o = 0 if where == "seam_dc" else draw(st.integers(-rad, rad))
+        pa, pb = ([o % H, W - 1], [o % H, 0]) if axis == "x" else ([H - 1, o % W], [0, o % W])
+    route = draw(st.sampled_from(["bf", "bf", "direct"]))
+    case = {
+        "H": H,
+        "W": W,
+        "wrap_around": True,
+        "route": route,
+        "mask": mask,
+        "field": {
+            "terms": terms,
+            "frac": draw(st.sampled_from([0.95, 0.5, 0.3, 0.1]) | _f(0.02, FRAC_MAX)),
+            "max_range": draw(st.sampled_from([6.0, 5.0, 3.0, 1.0, None]) | _f(0.3, 6.2)),
+            "pin": {"a": pa, "b": pb, "n": draw(st.sampled_from([0, -1, 0, 1])), "t": draw(st.sampled_from([0.5, 0.2, 0.8]) | _f(0.05, 0.95))},
+            "offset": 0.0,
+        },
+    }
+    if route == "direct":
+        case["dtype"] = draw(st.sampled_from(["float32", "float32", "float64"]))
+        case["input"] = "wrapped"
+        case["outside"] = draw(st.sampled_from(["field", "zero", "noise"]))
+        if case["outside"] == "noise":
+            case["outside_seed"] = draw(st.integers(0, 2**31 - 1))
+    else:
+        case["two_pass"] = draw(st.booleans())
+        case["pass_wrap_kw"] = draw(st.sampled_from([False, False, True]))  # False: the real caller's form
+        case["bf_extra"] = draw(st.sampled_from(["disc0", "disc0", "same", "all", "dilate"]))
+        case["amp_seed"] = draw(st.integers(0, 2**31 - 1))
+    return draw(_layouts(case))
+
+
+@st.composite
 def poisson_cases(draw):
     c = draw(cases(route="direct"))
     c["route"] = "poisson"
@@ -351,7 +497,7 @@ def _build(case):
     a, b = G.edge_list(H, W, mask, wrap)
     labels, ncomp = G.components(H, W, mask, wrap)
     truth = G.build_field(H, W, case["field"], a, b, labels >= 0)
-    if not (np.all(np.isfinite(truth)) and np.max(np.abs(truth)) <= G.MAX_ABS_PHASE + 4):
+    if not (np.all(np.isfinite(truth)) and np.max(np.abs(truth)) <= 2 * G.MAX_ABS_PHASE + 8):
         raise AssertionError("harness: generated field out of range")  # harness error, never a violation
     wrapped = G.wrap(truth)
     k = np.rint((truth - wrapped) / TWO_PI).astype(np.int64)
@@ -366,11 +512,17 @@ def _build(case):
         has_wrap |= s > 0
     kmax = int(np.max(np.abs(k[inm]))) if inm.any() else 0
     hole = G.has_hole(H, W, mask, wrap)
+    # where do the wrap contours run?  pixel pairs whose wrap counts differ, split into pairs across
+    # the periodic seam (last<->first row / column) and pairs in the array interior
+    kf = k.ravel()
+    kd = kf[a] != kf[b]
+    seam_pair = (np.abs(a // W - b // W) > 1) | (np.abs(a % W - b % W) > 1)
+    seam_only_wraps = bool(np.any(kd & seam_pair) and not np.any(kd & ~seam_pair))
     # some region of the mask hangs together only through the periodic border (classification only)
     seam = bool(wrap and mask is not None and G.components(H, W, mask, False)[1] > ncomp)
     return dict(
         H=H, W=W, wrap=wrap, mask=mask, truth=truth, labels=labels, ncomp=ncomp, wrapped=wrapped,
-        k=k, inm=inm, has_wrap=has_wrap, kspan=kspan, kmax=kmax, hole=hole, seam=seam, nedges=int(a.size),
+        k=k, inm=inm, has_wrap=has_wrap, kspan=kspan, kmax=kmax, hole=hole, seam=seam, nedges=int(a.size), seam_only_wraps=seam_only_wraps,
     )  # fmt: skip
 
 
@@ -391,6 +543,11 @@ def _classes(case, B):
         cl.append("thin_grid")
     elif min(B["H"], B["W"]) == 3:
         cl.append("narrow_grid")
+    if B["seam_only_wraps"]:
+        cl.append("wraps_only_across_seam")
+        cl.append("wraps_only_across_seam/" + case["route"])
+    if case["mask"] is not None and case["mask"]["t"] == "corner":
+        cl.append("corner_centred_mask")
     if B["seam"]:
         cl.append("seam_connected_mask")
         if B["has_wrap"]:
@@ -481,8 +638,12 @@ def check(ctx, case):
     lay = []
     tmask = None
     if mask is not None and route != "bf":
-        tmask, u = _as_layout(torch, mask, case.get("mask_layout", "c"))
+        enc = case.get("mask_enc")
+        tmask, u = _as_layout(torch, _encode_mask(mask, enc), case.get("mask_layout", "c"))
         lay.append("layout:mask=" + u)
+        ctx.count("mask_enc:%s/%s" % (enc["dtype"], enc["kind"]) if enc else "mask_enc:bool/bool")
+        if enc and enc["dtype"] in _BITS and enc["kind"] != "gray" and (enc["on"] * enc["on"]) % (2 ** _BITS[enc["dtype"]]) == 0:
+            ctx.count("mask_enc:int_value_whose_square_is_0_mod_2^bits")
 
     if route in ("direct", "poisson"):
         dt = np.dtype(case["dtype"])
@@ -526,6 +687,10 @@ def check(ctx, case):
         m = np.ones((H, W), dtype=bool) if mask is None else mask
         if case["bf_extra"] == "all":
             bf = np.ones((H, W), dtype=bool)
+        elif case["bf_extra"] == "disc0":
+            # the bright-field disc itself (corner-centred), the mask being an overlap region inside it
+            spec0 = dict(case["mask"], shift=None)
+            bf = m | G.build_mask(H, W, spec0, True)
         elif case["bf_extra"] == "dilate":
             from scipy import ndimage
 
@@ -575,4 +740,5 @@ def search(ctx):
     core.run_given(ctx, "fixedpoint", cases("direct", masked=True, inputs=("unwrapped",)), body, ctx.n(300, 1200))
     core.run_given(ctx, "bf", cases("bf"), body, ctx.n(270, 1200))
     core.run_given(ctx, "seam", seam_cases(), body, ctx.n(260, 1500))
+    core.run_given(ctx, "seamwrap", seamwrap_cases(), body, ctx.n(300, 1500))
     core.run_given(ctx, "poisson", poisson_cases(), body, ctx.n(100, 400))
